@@ -9,6 +9,7 @@
      property-level InFlightAbs (binding T).  Only rejected traces are violations; accepted ones are model drift.
 """
 import json
+import re
 import os
 import subprocess
 import time
@@ -125,7 +126,10 @@ def replay(scratch, testbin, hist_path, params, name, shards=None):
             rl = [l for l in p.stdout.split("\n") if l.startswith("REPORT ")]
             if p.returncode != 0 or not rl:
                 # a crash of the worker that the in-bubble recover could not catch (fatal error, panic in a library
-                # goroutine, blocked goroutines at bubble exit): reported through the crash classifier
+                # goroutine, blocked goroutines at bubble exit): reported through the crash classifier - but a worker
+                # that was killed (out of memory, signal) or died without a Go panic / fatal error says nothing about the code
+                if p.returncode < 0 or not re.search(r"^(panic:|fatal error:)", p.stdout, re.M):
+                    raise Infra("replay worker %d of %s died without a panic of its own (rc=%d: killed / out of memory?)\n%s" % (i, name, p.returncode, p.stdout[-1500:]))
                 divs.append(dict(crash=True, output=p.stdout[-6000:], shard=i))
                 continue
             reps.append(json.loads(rl[0][7:]))
@@ -239,7 +243,7 @@ def seq_pipeline(scratch, tier, testbin):
                  ("h-n1", seq_consts(1, 2, [1, 2], 5, 5, MaxHist=6), None),
                  ("h-n3", seq_consts(3, 1, [2, 4], 4, 4, MaxHist=5), None),
                  ("h-time", seq_consts(1, 3, [1], 4, 8, TimeoutQ=4, MaxHist=10, acts="MDT"), None),
-                 ("h-time5", seq_consts(2, 2, [1], 3, 6, TimeoutQ=5, MaxHist=9, acts="MDTC"), None),
+                 ("h-time5", seq_consts(2, 2, [1], 3, 6, TimeoutQ=5, MaxHist=8, acts="MDTC"), None),
                  ("sim-n3", seq_consts(3, 2, [2, 5], 10, 20, MaxHist=40), 5000),
                  ("sim-n4", seq_consts(4, 3, [1, 6], 12, 30, TimeoutQ=3, MaxHist=60), 3000)]
     for c in mc:
